@@ -1,6 +1,5 @@
 ---- MODULE MC_Dec ----
 EXTENDS DecodeCall
-Ident(s) == s
 Alpha == {"[C]", "[=C]", "[/C]", "[\\N]", "[O]", "[F]", "[Branch1]", "[=Branch1]",
           "[Ring1]", "[=Ring1]", "[-/Ring1]", "[\\/Ring2]", ".", "[Foo]"}
 ====
